@@ -16,6 +16,7 @@ structure M where
   rate : Int := 10
   pool : Nat := 4097
   pub : List Log × List Log := ([], [])
+  mark : JS := {}
 
 structure D where
   led : Driver.C05.D := {}
@@ -26,7 +27,10 @@ def isRootTy (t : Nat) : Bool := t == 3 || t == 6 || t == 9 || t == 11
 def showLog (l : Log) : String :=
   s!"{l.addr}:{l.ty}:{l.extra}:{l.ver}:" ++ (if isRootTy l.ty then "R" else toString l.new)
 
-def showRaw (l : Log) : String := s!"{l.addr}:{l.ty}:{l.extra}:{l.ver}:{l.old}>{l.new}"
+/-- OldVal is printed for the cell-like types only (a CodeLog / AddEventLog has none, the others hold other objects) -/
+def showRaw (l : Log) : String :=
+  let old := if l.ty == 12 || l.ty == 14 || l.ty == 15 || l.ty == 19 then "_" else toString l.old
+  s!"{l.addr}:{l.ty}:{l.extra}:{l.ver}:{old}>{l.new}"
 
 def joinS (l : List String) : String := if l.isEmpty then "-" else ";".intercalate l
 
@@ -83,6 +87,8 @@ def stepMo (m : M) (w : List String) : M × String :=
     let recs := (pairsOf all).map (fun p => s!"{p.1}:{p.2}={recordAfter m.s parts.1 p.1 p.2}")
     ({ m with pub := parts }, joinS (all.map showLog) ++ " | " ++ joinS recs)
   | ["mo-commit"] => ({ m with s := m.s.commit m.pub.1, pub := ([], []) }, "ok")
+  | ["mo-mark"] => ({ m with mark := m.s }, "ok")
+  | ["mo-back"] => ({ m with s := m.mark, pub := ([], []) }, "ok")
   | _ => (m, "bad-op")
 
 def step (d : D) (w : List String) : D × String :=
